@@ -231,6 +231,8 @@ fn created(res: &cw_multi_test::AppResponse) -> Vec<Addr> {
 /// variant where a field can also be an empty list.
 pub fn setup_opt(c: Contract, stage: u8, opt: u8) -> Result<Setup, String> {
     use Contract::*;
+    // stages 3.. are END states: the mid-life stage 1 first, then the family's closing operations
+    let base = if stage >= 3 { 1 } else { stage };
     let mut app = chain::new_app();
     fund(&mut app);
     let now = chain::now(&app);
@@ -253,14 +255,14 @@ pub fn setup_opt(c: Contract, stage: u8, opt: u8) -> Result<Setup, String> {
             let res = chain::exec(&mut app, CREATOR, &factory, &create, &coins(CREATION_FEE, NATIVE)).map_err(|e| format!("create_minter {}: {}", create, e))?;
             let made = created(&res);
             let (minter, collection) = (made[0].clone(), made[1].clone());
-            if stage >= 1 {
+            if base >= 1 {
                 chain::set_time(&mut app, start + 1_000_000_000);
                 for _ in 0..3 {
                     exec_ok(&mut app, BUYER, &minter, &json!({"mint": {}}), &coins(MINT_PRICE, NATIVE))?;
                 }
                 exec_ok(&mut app, BUYER2, &minter, &json!({"mint": {}}), &coins(MINT_PRICE, NATIVE))?;
             }
-            if stage >= 2 {
+            if base >= 2 {
                 exec_ok(&mut app, CREATOR, &minter, &json!({"mint_to": {"recipient": BUYER2}}), &[])?;
                 exec_ok(&mut app, BUYER, &minter, &json!({"shuffle": {}}), &coins(500_000_000, NATIVE))?;
                 exec_ok(&mut app, CREATOR, &minter, &json!({"update_per_address_limit": {"per_address_limit": 2}}), &[])?;
@@ -269,6 +271,51 @@ pub fn setup_opt(c: Contract, stage: u8, opt: u8) -> Result<Setup, String> {
                 if c == Sg721Updatable {
                     let tok = first_token(&app, &collection, BUYER)?;
                     exec_ok(&mut app, BUYER, &collection, &json!({"transfer_nft": {"recipient": BUYER2, "token_id": tok}}), &[])?;
+                }
+            }
+            if stage >= 3 && c != Sg721Updatable {
+                match stage {
+                    // the creator burns what is left before sell-out
+                    3 => exec_ok(&mut app, CREATOR, &minter, &json!({"burn_remaining": {}}), &[])?,
+                    // sold out (4), sold out and purged (5)
+                    4 | 5 => {
+                        for _ in 0..16 {
+                            exec_ok(&mut app, CREATOR, &minter, &json!({"mint_to": {"recipient": BUYER2}}), &[])?;
+                        }
+                        if stage == 5 {
+                            exec_ok(&mut app, BUYER, &minter, &json!({"purge": {}}), &[])?;
+                        }
+                    }
+                    // a discount is in force and was used
+                    _ => {
+                        exec_ok(&mut app, CREATOR, &minter, &json!({"update_discount_price": {"price": "60000000"}}), &[])?;
+                        exec_ok(&mut app, BUYER2, &minter, &json!({"mint": {}}), &coins(60_000_000, NATIVE))?;
+                    }
+                }
+            }
+            if stage >= 3 && c == Sg721Updatable {
+                let tok = first_token(&app, &collection, BUYER)?;
+                match stage {
+                    // a token's metadata rewritten, a token burnt (3), then metadata frozen (5)
+                    3 | 5 => {
+                        exec_ok(&mut app, CREATOR, &collection, &json!({"update_token_metadata": {"token_id": tok, "token_uri": "ipfs://rewritten"}}), &[])?;
+                        let tok2 = first_token(&app, &collection, BUYER2)?;
+                        exec_ok(&mut app, BUYER2, &collection, &json!({"burn": {"token_id": tok2}}), &[])?;
+                        if stage == 5 {
+                            exec_ok(&mut app, CREATOR, &collection, &json!({"freeze_token_metadata": {}}), &[])?;
+                        }
+                    }
+                    // collection info and royalty updated, then frozen
+                    _ => {
+                        chain::set_time(&mut app, start + 3 * 86_400_000_000_000);
+                        let upd = json!({"update_collection_info": {"collection_info": {"description": "updated", "image": "https://example.com/new.png",
+                            "external_link": "https://example.com/new.html", "explicit_content": true,
+                            "royalty_info": if opt >= 1 { Value::Null } else { json!({"payment_address": BUYER2, "share": "0.09"}) }}}});
+                        exec_ok(&mut app, CREATOR, &collection, &upd, &[])?;
+                        if stage == 6 {
+                            exec_ok(&mut app, CREATOR, &collection, &json!({"freeze_collection_info": {}}), &[])?;
+                        }
+                    }
                 }
             }
             let addr = if c == Sg721Updatable { collection } else { minter };
@@ -287,52 +334,115 @@ pub fn setup_opt(c: Contract, stage: u8, opt: u8) -> Result<Setup, String> {
                     "start_time": start.to_string(),
                     "end_time": if opt == 1 { None } else { Some((start + 86_400_000_000_000u64).to_string()) },
                     "mint_price": coin_json(MINT_PRICE, NATIVE), "per_address_limit": 5,
-                    "num_tokens": if opt >= 1 { Some(50) } else { None },
+                    "num_tokens": if stage >= 3 { Some(12) } else if opt >= 1 { Some(50) } else { None },
                     "payment_address": if opt >= 1 { Some("payaddr") } else { None }, "whitelist": wl},
                 "collection_params": if opt >= 1 { collection_params_alt(sg721_code, start) } else { collection_params(sg721_code) }}});
             let res = chain::exec(&mut app, CREATOR, &factory, &create, &coins(CREATION_FEE, NATIVE)).map_err(|e| format!("create_minter {}: {}", create, e))?;
             let minter = created(&res)[0].clone();
-            if stage >= 1 {
+            if base >= 1 {
                 chain::set_time(&mut app, start + 1_000_000_000);
                 for _ in 0..2 {
                     exec_ok(&mut app, BUYER, &minter, &json!({"mint": {}}), &coins(MINT_PRICE, NATIVE))?;
                 }
                 exec_ok(&mut app, BUYER2, &minter, &json!({"mint": {}}), &coins(MINT_PRICE, NATIVE))?;
             }
-            if stage >= 2 {
+            if base >= 2 {
                 exec_ok(&mut app, CREATOR, &minter, &json!({"update_per_address_limit": {"per_address_limit": 4}}), &[])?;
                 chain::set_time(&mut app, start + 3_600_000_000_000);
                 exec_ok(&mut app, BUYER2, &minter, &json!({"mint": {}}), &coins(MINT_PRICE, NATIVE))?;
             }
+            if stage >= 3 {
+                match stage {
+                    // capped edition, the rest burnt before sell-out (cap 12, 3 minted)
+                    3 => {
+                        if opt != 1 {
+                            chain::set_time(&mut app, start + 2 * 86_400_000_000_000); // with an end time the burn waits for it
+                        }
+                        exec_ok(&mut app, CREATOR, &minter, &json!({"burn_remaining": {}}), &[])?
+                    }
+                    // capped edition sold out (4), then purged (5)
+                    4 | 5 => {
+                        for _ in 0..9 {
+                            exec_ok(&mut app, CREATOR, &minter, &json!({"mint_to": {"recipient": BUYER2}}), &coins(MINT_PRICE, NATIVE))?;
+                        }
+                        if stage == 5 {
+                            if opt != 1 {
+                                chain::set_time(&mut app, start + 2 * 86_400_000_000_000);
+                            }
+                            exec_ok(&mut app, BUYER, &minter, &json!({"purge": {}}), &[])?;
+                        }
+                    }
+                    // the sale end time has passed with supply left
+                    _ => chain::set_time(&mut app, start + 2 * 86_400_000_000_000),
+                }
+            }
             finish(app, minter, c)
         }
         TokenMergeMinter => {
+            // end states need a real source collection whose tokens a buyer owns: a vending
+            // minter's collection, airdropped to the buyer
+            let mut source: Option<Addr> = None;
+            if stage >= 3 {
+                let vm = app.store_code(chain::vending_minter());
+                let vf = app.store_code(chain::vending_factory());
+                let sg = app.store_code(chain::sg721_base());
+                let f = app
+                    .instantiate_contract(vf, Addr::unchecked(CREATOR), &vending_factory_params(vm, &[sg]), &[], "srcfactory", None)
+                    .map_err(|e| format!("source factory: {:#}", e))?;
+                let create = json!({"create_minter": {
+                    "init_msg": {"base_token_uri": "ipfs://source", "payment_address": null, "start_time": start.to_string(),
+                        "num_tokens": 20, "mint_price": coin_json(MINT_PRICE, NATIVE), "per_address_limit": 3, "whitelist": null},
+                    "collection_params": collection_params(sg)}});
+                let res = chain::exec(&mut app, CREATOR, &f, &create, &coins(CREATION_FEE, NATIVE)).map_err(|e| format!("source minter: {}", e))?;
+                let made = created(&res);
+                chain::set_time(&mut app, start + 500_000_000);
+                for _ in 0..4 {
+                    exec_ok(&mut app, CREATOR, &made[0], &json!({"mint_to": {"recipient": BUYER}}), &[])?;
+                }
+                source = Some(made[1].clone());
+            }
+            let start = if stage >= 3 { start + 5_000_000_000 } else { start };
             let minter_code = app.store_code(c.code());
             let factory_code = app.store_code(chain::token_merge_factory());
             let sg721_code = app.store_code(chain::sg721_base());
             let factory = app
                 .instantiate_contract(factory_code, Addr::unchecked(CREATOR), &tm_factory_params(minter_code, &[sg721_code]), &[], "factory", None)
                 .map_err(|e| format!("factory: {:#}", e))?;
+            let mint_tokens = match &source {
+                Some(a) => json!([{"collection": a.to_string(), "amount": 2}]),
+                None => json!([{"collection": "contract2", "amount": 1}]),
+            };
             let create = json!({"create_minter": {
                 "init_msg": {"base_token_uri": "ipfs://aldkfjads", "start_time": start.to_string(), "num_tokens": 20,
-                    "mint_tokens": [{"collection": "contract2", "amount": 1}], "per_address_limit": 3},
+                    "mint_tokens": mint_tokens, "per_address_limit": 3},
                 "collection_params": if opt >= 1 { collection_params_alt(sg721_code, start) } else { collection_params(sg721_code) }}});
-            exec_ok(&mut app, CREATOR, &factory, &create, &coins(CREATION_FEE, NATIVE))?;
-            let minter = Addr::unchecked("contract1");
-            if stage >= 1 {
+            let res = chain::exec(&mut app, CREATOR, &factory, &create, &coins(CREATION_FEE, NATIVE)).map_err(|e| format!("create_minter {}: {}", create, e))?;
+            let minter = created(&res)[0].clone();
+            if base >= 1 {
                 chain::set_time(&mut app, start + 1_000_000_000);
                 // creator airdrops (no tokens need to be burnt for MintTo)
                 exec_ok(&mut app, CREATOR, &minter, &json!({"mint_to": {"recipient": BUYER}}), &[])?;
             }
-            if stage >= 2 {
+            if base >= 2 {
                 exec_ok(&mut app, CREATOR, &minter, &json!({"mint_to": {"recipient": BUYER2}}), &[])?;
                 exec_ok(&mut app, CREATOR, &minter, &json!({"update_per_address_limit": {"per_address_limit": 2}}), &[])?;
+            }
+            if let Some(src) = &source {
+                // the buyer deposits tokens of the source collection: 1 of the 2 a mint needs (3: a
+                // partially filled ledger), 3 of them (4: one merge done, one token waiting)
+                let deposits = if stage == 3 { 1 } else { 3 };
+                let hook = cosmwasm_std::to_json_binary(&json!({"deposit_token": {"recipient": null}})).unwrap();
+                for _ in 0..deposits {
+                    let tok = first_token(&app, src, BUYER)?;
+                    exec_ok(&mut app, BUYER, src, &json!({"send_nft": {"contract": minter.to_string(), "token_id": tok, "msg": hook}}), &[])?;
+                }
             }
             finish(app, minter, c)
         }
         BaseFactory | VendingFactory | OpenEditionFactory | TokenMergeFactory => {
             let code = app.store_code(c.code());
             let ids: &[u64] = match opt {
+                _ if stage >= 3 => &[1, 3, 1, 3, 3, 5, 5],
                 0 => &[1, 3, 5],
                 1 => &[3],
                 _ => &[],
@@ -343,13 +453,13 @@ pub fn setup_opt(c: Contract, stage: u8, opt: u8) -> Result<Setup, String> {
                 OpenEditionFactory => oe_factory_params(7, ids),
                 _ => tm_factory_params(7, ids),
             };
-            if opt >= 1 {
+            if opt >= 1 || stage >= 3 {
                 params["params"]["frozen"] = json!(true);
             }
             let addr = app
                 .instantiate_contract(code, Addr::unchecked(CREATOR), &params, &[], "factory", Some(CREATOR.to_string()))
                 .map_err(|e| format!("factory: {:#}", e))?;
-            if stage >= 1 {
+            if base >= 1 && stage < 3 {
                 let upd = if c == TokenMergeFactory {
                     json!({"update_params": {"code_id": 9, "add_sg721_code_ids": [11], "rm_sg721_code_ids": [3], "frozen": null,
                         "creation_fee": null, "max_trading_offset_secs": 1000,
@@ -365,7 +475,7 @@ pub fn setup_opt(c: Contract, stage: u8, opt: u8) -> Result<Setup, String> {
                 };
                 chain::sudo(&mut app, &addr, &upd).map_err(|e| format!("sudo {}: {}", upd, e))?;
             }
-            if stage >= 2 {
+            if base >= 2 {
                 chain::set_time(&mut app, now + 86_400_000_000_000);
             }
             finish(app, addr, c)
@@ -385,15 +495,23 @@ pub fn setup_opt(c: Contract, stage: u8, opt: u8) -> Result<Setup, String> {
                 .instantiate_contract(scode, Addr::unchecked(CREATOR), &smsg, &[], "splits", Some(CREATOR.to_string()))
                 .map_err(|e| format!("splits: {:#}", e))?;
             let distributor = if opt >= 1 { "m0001" } else { CREATOR };
-            if stage >= 1 {
+            if base >= 1 {
                 chain::mint_coins(&mut app, addr.as_str(), 1234, NATIVE);
                 exec_ok(&mut app, distributor, &addr, &json!({"distribute": {"denom_list": null}}), &[])?;
             }
-            if stage >= 2 {
+            if base >= 2 {
                 if opt == 0 {
                     exec_ok(&mut app, CREATOR, &addr, &json!({"update_admin": {"admin": BUYER}}), &[])?;
                 }
                 chain::mint_coins(&mut app, addr.as_str(), 77, NATIVE);
+            }
+            if stage >= 3 {
+                // a second distribution leaving a remainder, then the admin is renounced
+                chain::mint_coins(&mut app, addr.as_str(), 1000, NATIVE);
+                exec_ok(&mut app, distributor, &addr, &json!({"distribute": {"denom_list": [NATIVE]}}), &[])?;
+                if opt == 0 {
+                    exec_ok(&mut app, CREATOR, &addr, &json!({"update_admin": {"admin": null}}), &[])?;
+                }
             }
             finish(app, addr, c)
         }
@@ -407,16 +525,28 @@ pub fn setup_opt(c: Contract, stage: u8, opt: u8) -> Result<Setup, String> {
             let addr = app
                 .instantiate_contract(code, Addr::unchecked(CREATOR), &msg, &coins(1_000_000_000, NATIVE), "wl", Some(CREATOR.to_string()))
                 .map_err(|e| format!("whitelist-merkletree: {:#}", e))?;
-            if stage >= 1 && opt == 0 {
+            if base >= 1 && opt == 0 {
                 exec_ok(&mut app, CREATOR, &addr, &json!({"update_admins": {"admins": [CREATOR, BUYER]}}), &[])?;
             }
-            if stage >= 2 {
+            if base >= 2 {
                 if opt == 0 {
                     exec_ok(&mut app, BUYER, &addr, &json!({"update_end_time": (start + 80_000_000_000_000u64).to_string()}), &[])?;
                 } else if opt == 1 {
                     exec_ok(&mut app, CREATOR, &addr, &json!({"update_end_time": (start + 80_000_000_000_000u64).to_string()}), &[])?;
                 }
                 chain::set_time(&mut app, start + 1_000_000_000);
+            }
+            match stage {
+                // ended
+                3 => chain::set_time(&mut app, start + 2 * 86_400_000_000_000),
+                // started, admin list frozen
+                4 => {
+                    if opt == 0 {
+                        exec_ok(&mut app, CREATOR, &addr, &json!({"freeze": {}}), &[])?;
+                    }
+                    chain::set_time(&mut app, start + 1_000_000_000);
+                }
+                _ => {}
             }
             finish(app, addr, c)
         }
@@ -435,11 +565,23 @@ pub fn setup_opt(c: Contract, stage: u8, opt: u8) -> Result<Setup, String> {
             let addr = app
                 .instantiate_contract(code, Addr::unchecked(CREATOR), &msg, &coins(1_000_000_000, NATIVE), "twl", Some(CREATOR.to_string()))
                 .map_err(|e| format!("tiered-whitelist-merkletree: {:#}", e))?;
-            if stage >= 1 && opt == 0 {
+            if base >= 1 && opt == 0 {
                 exec_ok(&mut app, CREATOR, &addr, &json!({"update_admins": {"admins": [CREATOR, BUYER]}}), &[])?;
             }
-            if stage >= 2 {
+            if base >= 2 {
                 chain::set_time(&mut app, start + 1_000_000_000);
+            }
+            match stage {
+                // every stage ended
+                3 => chain::set_time(&mut app, start + 86_400_000_000_000),
+                // second stage running, admin list frozen
+                4 => {
+                    if opt == 0 {
+                        exec_ok(&mut app, CREATOR, &addr, &json!({"freeze": {}}), &[])?;
+                    }
+                    chain::set_time(&mut app, start + 2_500_000_000_000);
+                }
+                _ => {}
             }
             finish(app, addr, c)
         }
@@ -447,6 +589,19 @@ pub fn setup_opt(c: Contract, stage: u8, opt: u8) -> Result<Setup, String> {
 }
 
 /// has a sudo UpdateStatus entry point (every minter with a migrate entry point)
+/// the END-state life stages each contract has (see the comments in `setup_opt`)
+pub fn end_stages(c: Contract) -> Vec<u8> {
+    use Contract::*;
+    match c {
+        Sg721Updatable => vec![3, 4, 5, 6],
+        x if x.kind() == Kind::Vending => vec![3, 4, 5, 6],
+        OpenEditionMinter | OpenEditionMinterWlFlex | OpenEditionMinterMerkleWl => vec![3, 4, 5, 6],
+        TokenMergeMinter => vec![3, 4],
+        WhitelistMerkletree | TieredWhitelistMerkletree => vec![3, 4],
+        _ => vec![3],
+    }
+}
+
 pub fn is_minter(c: Contract) -> bool {
     c.kind() == Kind::Vending
         || matches!(c, Contract::OpenEditionMinter | Contract::OpenEditionMinterWlFlex | Contract::OpenEditionMinterMerkleWl | Contract::TokenMergeMinter)
@@ -627,7 +782,8 @@ pub fn get_cw2(app: &App, addr: &Addr) -> (String, String) {
 }
 
 /// the raw keys a migration is allowed to write (besides cw2's)
-pub const SLOT_KEYS: [&str; 9] = [
+pub const SLOT_KEYS: [&str; 10] = [
+    "mintable_num_tokens",
     "status",
     "contract_info",
     "last_discount_time",
@@ -650,6 +806,10 @@ pub fn slot_bool(raw: &Raw, key: &str) -> Option<bool> {
 }
 pub fn slot_addr(raw: &Raw, key: &str) -> Option<String> {
     slot_raw(raw, key).and_then(|v| serde_json::from_slice::<String>(v).ok())
+}
+/// MINTABLE_NUM_TOKENS (what is left to mint)
+pub fn slot_mintable(raw: &Raw) -> Option<u64> {
+    slot_raw(raw, "mintable_num_tokens").and_then(|v| serde_json::from_slice::<Option<u64>>(v).ok()).flatten()
 }
 /// the minter STATUS item: (is_verified, is_blocked, is_explicit)
 pub fn slot_status(raw: &Raw) -> Option<(bool, bool, bool)> {
